@@ -359,3 +359,219 @@ Proof.
   - destruct (dec_ext c (S (length (ldata (ext_l c)))) eid) as [r|] eqn:E2; [|reflexivity].
     rewrite (dec_ext_mono c c (core_le_refl c) _ f eid r Hf E2) in E. discriminate.
 Qed.
+
+(* ================================================================================================ *)
+(* C. round trip, sharing, injectivity                                                               *)
+(* ================================================================================================ *)
+Lemma km_le_refl l : km_le l l.
+Proof. intros k id H. exact H. Qed.
+Lemma km_le_trans l1 l2 l3 : km_le l1 l2 -> km_le l2 l3 -> km_le l1 l3.
+Proof. intros A B k id H. apply B, A, H. Qed.
+
+Lemma ext_list_step l F ty ref nx id acc :
+  lib_get l id = Some (ext_row ty ref nx) -> id <> 0 ->
+  ext_list l F nx = Some acc -> ext_list l (S F) id = Some ((ty, ref) :: acc).
+Proof.
+  intros G N H. rewrite ext_list_unfold. apply Z.eqb_neq in N. rewrite N, G.
+  destruct (ext_row_fields ty ref nx) as (F1 & F2 & F3). rewrite F1, F2, F3, H. reflexivity.
+Qed.
+
+(* the insertion loop of set_block (block.py:179-185), started at any valid tail [eid] *)
+Lemma ext_add_spec : forall exts (l : klib) eid acc F,
+  ext_wf l -> ext_valid l eid -> ext_list l F eid = Some acc ->
+  let l' := fst (ext_add l exts eid) in
+  let id := snd (ext_add l exts eid) in
+  ext_wf l' /\ lib_le l l' /\ km_le l l' /\ ext_valid l' id /\
+  (exists F', ext_list l' F' id = Some (rev exts ++ acc)) /\
+  ext_probe l' exts eid = (id, true).
+Proof.
+  induction exts as [|[ty ref] r IH]; intros l eid acc F W V H; cbv zeta; cbn [ext_add ext_probe].
+  - cbn [fst snd rev app]. split; [exact W|]. split; [apply lib_le_refl|]. split; [apply km_le_refl|].
+    split; [exact V|]. split; [exists F; exact H|reflexivity].
+  - unfold kfind, lib_find.
+    destruct (kget (lkeymap l) [zq ty; zq ref; zq eid]) as [id0|] eqn:E.
+    + (* the entry exists *)
+      pose proof W as (W0 & W1 & W2 & W3).
+      pose proof (W2 _ _ E) as G. destruct (W1 _ _ G) as (Hid & _).
+      assert (V0 : ext_valid l id0) by (right; congruence).
+      assert (H0 : ext_list l (S F) id0 = Some ((ty, ref) :: acc))
+        by (apply (ext_list_step l F ty ref eid); [exact G|lia|exact H]).
+      destruct (IH l id0 ((ty, ref) :: acc) (S F) W V0 H0) as (A1 & A2 & A3 & A4 & (F' & A5) & A6).
+      split; [exact A1|]. split; [exact A2|]. split; [exact A3|]. split; [exact A4|]. split.
+      * exists F'. cbn [rev]. rewrite <- app_assoc. exact A5.
+      * rewrite (A3 _ _ E). exact A6.
+    + (* a new entry at the next free id *)
+      destruct (ext_insert_wf l ty ref eid W V E) as (B1 & B2 & B3 & B4 & B5).
+      fold (ext_row ty ref eid) in *.
+      set (l1 := fst (kins l (lnext l) (ext_row ty ref eid) 0)) in *.
+      assert (Hpos : lnext l <> 0) by (destruct W as (W0 & _); lia).
+      assert (V1 : ext_valid l1 (lnext l)) by (right; congruence).
+      assert (H1 : ext_list l1 (S F) (lnext l) = Some ((ty, ref) :: acc)).
+      { apply (ext_list_step l1 F ty ref eid); [exact B4|exact Hpos|].
+        eapply ext_list_mono; [exact B2| |exact H]. lia. }
+      destruct (IH l1 (lnext l) ((ty, ref) :: acc) (S F) B1 V1 H1) as (A1 & A2 & A3 & A4 & (F' & A5) & A6).
+      split; [exact A1|]. split; [eapply lib_le_trans; eassumption|].
+      split; [eapply km_le_trans; eassumption|]. split; [exact A4|]. split.
+      * exists F'. cbn [rev]. rewrite <- app_assoc. exact A5.
+      * rewrite (A3 _ _ B5). exact A6.
+Qed.
+
+(* the lookup loop (block.py:170-177): if every element is found, the chain is already there *)
+Lemma ext_probe_spec : forall exts (l : klib) eid acc F id,
+  ext_wf l -> ext_list l F eid = Some acc -> ext_probe l exts eid = (id, true) ->
+  ext_valid l eid -> ext_valid l id /\ exists F', ext_list l F' id = Some (rev exts ++ acc).
+Proof.
+  induction exts as [|[ty ref] r IH]; intros l eid acc F id W H P V; cbn [ext_probe] in P.
+  - inversion P. subst id. split; [exact V|exists F; exact H].
+  - unfold kfind, lib_find in P.
+    destruct (kget (lkeymap l) [zq ty; zq ref; zq eid]) as [id0|] eqn:E; [|discriminate].
+    pose proof W as (W0 & W1 & W2 & W3).
+    pose proof (W2 _ _ E) as G. destruct (W1 _ _ G) as (Hid & _).
+    assert (H0 : ext_list l (S F) id0 = Some ((ty, ref) :: acc))
+      by (apply (ext_list_step l F ty ref eid); [exact G|lia|exact H]).
+    destruct (IH l id0 ((ty, ref) :: acc) (S F) id W H0 P) as (A1 & F' & A2); [right; congruence|].
+    split; [exact A1|]. exists F'. cbn [rev]. rewrite <- app_assoc. exact A2.
+Qed.
+
+(* ---- the sort is a permutation ------------------------------------------------------------------- *)
+Lemma ins_ref_perm x l : Permutation (ins_ref x l) (x :: l).
+Proof.
+  induction l as [|y r IH]; cbn [ins_ref]; [apply Permutation_refl|].
+  destruct (snd x <? snd y); [apply Permutation_refl|].
+  eapply perm_trans; [apply perm_skip; exact IH|apply perm_swap].
+Qed.
+
+Lemma sort_ref_perm l : Permutation (sort_ref l) l.
+Proof.
+  unfold sort_ref.
+  assert (G : forall acc, Permutation (fold_left (fun a x => ins_ref x a) l acc) (l ++ acc)).
+  { induction l as [|x r IH]; intro acc; cbn [fold_left app]; [apply Permutation_refl|].
+    eapply perm_trans; [apply IH|].
+    eapply perm_trans; [apply Permutation_app_head; apply ins_ref_perm|].
+    apply Permutation_sym. apply Permutation_middle. }
+  specialize (G []). rewrite app_nil_r in G. exact G.
+Qed.
+
+Lemma nodup_nat_NoDup l : nodup_nat l = true -> NoDup l.
+Proof.
+  induction l as [|x r IH]; cbn; intro H; constructor; apply andb_true_iff in H; destruct H as [H1 H2].
+  - intro Hin. apply negb_true_iff in H1.
+    assert (existsb (Nat.eqb x) r = true) by (apply existsb_exists; exists x; split; [exact Hin|apply Nat.eqb_refl]).
+    congruence.
+  - apply IH. exact H2.
+Qed.
+
+Lemma map_nth_seq {A} (l : list A) d : map (fun i => nth i l d) (seq 0 (length l)) = l.
+Proof.
+  induction l as [|x r IH]; cbn [length seq map]; [reflexivity|].
+  cbn [nth]. f_equal. rewrite <- seq_shift, map_map. cbn [nth]. exact IH.
+Qed.
+
+Lemma apply_hint_perm hint exts l : apply_hint hint exts = Some l -> Permutation l exts.
+Proof.
+  unfold apply_hint.
+  destruct ((length hint =? length exts)%nat && nodup_nat hint &&
+            forallb (fun i => (i <? length exts)%nat) hint) eqn:E; [|discriminate].
+  destruct (sorted_ref (map (fun i => nth i exts (0, 0)) hint)); [|discriminate].
+  intro H. inversion H. subst l. clear H.
+  apply andb_true_iff in E. destruct E as [E E3]. apply andb_true_iff in E. destruct E as [E1 E2].
+  apply Nat.eqb_eq in E1. apply nodup_nat_NoDup in E2.
+  assert (P : Permutation hint (seq 0 (length exts))).
+  { apply NoDup_Permutation_bis; [exact E2|rewrite seq_length; lia|].
+    intros i Hi. rewrite forallb_forall in E3. specialize (E3 i Hi). apply Nat.ltb_lt in E3.
+    apply in_seq. lia. }
+  eapply perm_trans; [apply Permutation_map; exact P|]. rewrite map_nth_seq. apply Permutation_refl.
+Qed.
+
+Theorem sort_exts_perm : forall hint exts, Permutation (sort_exts hint exts) exts.
+Proof.
+  intros hint exts. unfold sort_exts. destruct (apply_hint hint exts) as [l|] eqn:E.
+  - eapply apply_hint_perm; exact E.
+  - apply sort_ref_perm.
+Qed.
+
+(* ---- registration of a whole list (block.py:160-188) ---------------------------------------------- *)
+Theorem ext_register_spec : forall hint (l : klib) exts,
+  ext_wf l ->
+  let l' := fst (ext_register hint l exts) in
+  let id := snd (ext_register hint l exts) in
+  ext_wf l' /\ lib_le l l' /\ km_le l l' /\ ext_valid l' id /\
+  ext_list l' (S (length (ldata l'))) id = Some (rev (sort_exts hint exts)) /\
+  ext_probe l' (sort_exts hint exts) 0 = (id, true).
+Proof.
+  intros hint l exts W. cbv zeta. unfold ext_register.
+  assert (H0 : ext_list l 0 0 = Some []) by reflexivity.
+  assert (V0 : ext_valid l 0) by (left; reflexivity).
+  destruct (ext_probe l (sort_exts hint exts) 0) as [id af] eqn:P. destruct af.
+  - cbn [fst snd]. destruct (ext_probe_spec _ l 0 [] 0%nat id W H0 P V0) as (A1 & F' & A2).
+    rewrite app_nil_r in A2.
+    split; [exact W|]. split; [apply lib_le_refl|]. split; [apply km_le_refl|]. split; [exact A1|].
+    split; [eapply ext_list_std_fuel; eassumption|exact P].
+  - destruct (ext_add_spec (sort_exts hint exts) l 0 [] 0%nat W V0 H0) as (A1 & A2 & A3 & A4 & (F' & A5) & A6).
+    rewrite app_nil_r in A5.
+    split; [exact A1|]. split; [exact A2|]. split; [exact A3|]. split; [exact A4|].
+    split; [eapply ext_list_std_fuel; eassumption|exact A6].
+Qed.
+
+(* what get_block returns for the registered id: the payloads of the sorted list, in reverse (walk)
+   order — for every core whose extension library satisfies the invariant *)
+Theorem ext_roundtrip : forall hint c exts,
+  ext_wf (ext_l c) ->
+  let el := fst (ext_register hint (ext_l c) exts) in
+  let id := snd (ext_register hint (ext_l c) exts) in
+  let c' := c <| ext_l := el |> in
+  dec_ext c' (S (length (ldata el))) id = map_opt (ext_payload c) (rev (sort_exts hint exts)) /\
+  Permutation (rev (sort_exts hint exts)) exts.
+Proof.
+  intros hint c exts W. cbv zeta.
+  destruct (ext_register_spec hint (ext_l c) exts W) as (_ & _ & _ & _ & A5 & _).
+  split.
+  - rewrite dec_ext_via_list. cbn [ext_l]. 
+    change (ext_l (c <| ext_l := fst (ext_register hint (ext_l c) exts) |>))
+      with (fst (ext_register hint (ext_l c) exts)).
+    rewrite A5. reflexivity.
+  - eapply perm_trans; [apply Permutation_sym, Permutation_rev|apply sort_exts_perm].
+Qed.
+
+(* sharing: registering a list with the same sorted form again finds every element, returns the
+   same id and leaves the library untouched *)
+Theorem ext_register_shares : forall h1 h2 (l : klib) e1 e2,
+  ext_wf l -> sort_exts h2 e2 = sort_exts h1 e1 ->
+  let l1 := fst (ext_register h1 l e1) in
+  ext_register h2 l1 e2 = (l1, snd (ext_register h1 l e1)).
+Proof.
+  intros h1 h2 l e1 e2 W S. cbv zeta.
+  destruct (ext_register_spec h1 l e1 W) as (_ & _ & _ & _ & _ & A6).
+  unfold ext_register at 1. rewrite S, A6. reflexivity.
+Qed.
+
+(* injectivity: in a well-formed library two ids that stand for the same list are the same id *)
+Theorem ext_list_injective : forall l, ext_wf l -> forall xs f1 f2 id1 id2,
+  ext_list l f1 id1 = Some xs -> ext_list l f2 id2 = Some xs -> id1 = id2.
+Proof.
+  intros l (W0 & W1 & W2 & W3). induction xs as [|x r IH]; intros f1 f2 id1 id2 H1 H2;
+    rewrite ext_list_unfold in H1, H2.
+  - destruct (id1 =? 0) eqn:E1; destruct (id2 =? 0) eqn:E2.
+    + apply Z.eqb_eq in E1, E2. congruence.
+    + exfalso. destruct f2; [discriminate|]. destruct (lib_get l id2); [|discriminate].
+      destruct (ext_list l f2 _); discriminate.
+    + exfalso. destruct f1; [discriminate|]. destruct (lib_get l id1); [|discriminate].
+      destruct (ext_list l f1 _); discriminate.
+    + exfalso. destruct f1; [discriminate|]. destruct (lib_get l id1); [|discriminate].
+      destruct (ext_list l f1 _); discriminate.
+  - destruct (id1 =? 0); [discriminate|]. destruct (id2 =? 0); [discriminate|].
+    destruct f1 as [|f1]; [discriminate|]. destruct f2 as [|f2]; [discriminate|].
+    destruct (lib_get l id1) as [ed1|] eqn:G1; [|discriminate].
+    destruct (lib_get l id2) as [ed2|] eqn:G2; [|discriminate].
+    destruct (ext_list l f1 (qz (knth ed1 2))) as [r1|] eqn:L1; [|discriminate].
+    destruct (ext_list l f2 (qz (knth ed2 2))) as [r2|] eqn:L2; [|discriminate].
+    injection H1 as Hx1 Hr1. injection H2 as Hx2 Hr2. subst r1 r2.
+    destruct (W1 _ _ G1) as (_ & t1 & rf1 & n1 & K1 & _). destruct (W1 _ _ G2) as (_ & t2 & rf2 & n2 & K2 & _).
+    subst ed1 ed2.
+    destruct (ext_row_fields t1 rf1 n1) as (A1 & A2 & A3). destruct (ext_row_fields t2 rf2 n2) as (B1 & B2 & B3).
+    rewrite A3 in L1. rewrite B3 in L2.
+    assert (n1 = n2) by (eapply IH; eassumption).
+    assert (t1 = t2 /\ rf1 = rf2) as [-> ->].
+    { rewrite A1, A2 in Hx1. rewrite B1, B2 in Hx2. rewrite <- Hx2 in Hx1. inversion Hx1. auto. }
+    subst n2. pose proof (W3 _ _ G1) as M1. pose proof (W3 _ _ G2) as M2. congruence.
+Qed.
